@@ -241,6 +241,56 @@ pub fn key_tie(a: &OwnedTerm, b: &OwnedTerm) -> bool {
     false
 }
 
+/// does the term contain a big integer whose most significant stored digit is zero (non-minimal digits)?
+pub fn has_nonminimal_big(t: &OwnedTerm) -> bool {
+    match t {
+        OwnedTerm::BigInt(b) => b.digits.last() == Some(&0),
+        OwnedTerm::Tuple(l) | OwnedTerm::List(l) => l.iter().any(has_nonminimal_big),
+        OwnedTerm::ImproperList { elements, tail } => elements.iter().any(has_nonminimal_big) || has_nonminimal_big(tail),
+        OwnedTerm::Map(m) => m.iter().any(|(k, v)| has_nonminimal_big(k) || has_nonminimal_big(v)),
+        OwnedTerm::InternalFun(f) => f.free_vars.iter().any(has_nonminimal_big),
+        _ => false,
+    }
+}
+
+/// Erlang type rank (number < atom < reference < fun < port < pid < tuple < map < list < bit-string)
+fn type_rank(t: &OwnedTerm) -> u8 {
+    match t {
+        OwnedTerm::Integer(_) | OwnedTerm::BigInt(_) | OwnedTerm::Float(_) => 0,
+        OwnedTerm::Atom(_) => 1,
+        OwnedTerm::Reference(_) => 2,
+        OwnedTerm::ExternalFun(_) | OwnedTerm::InternalFun(_) => 3,
+        OwnedTerm::Port(_) => 4,
+        OwnedTerm::Pid(_) => 5,
+        OwnedTerm::Tuple(_) => 6,
+        OwnedTerm::Map(_) => 7,
+        OwnedTerm::Nil | OwnedTerm::List(_) | OwnedTerm::ImproperList { .. } => 8,
+        OwnedTerm::Binary(_) | OwnedTerm::BitBinary { .. } | OwnedTerm::String(_) => 9,
+    }
+}
+
+/// failure class of a law violation: the recorded finding only when the witness really involves a non-minimal big integer
+fn law_class(base: &'static str, witness: &[&OwnedTerm]) -> &'static str {
+    if witness.iter().any(|t| has_nonminimal_big(t)) { "kf-c11-nonminimal-big" } else { base }
+}
+
+/// big integers with high-order zero digits (the decoder keeps the digits of SMALL_BIG_EXT/LARGE_BIG_EXT as they arrive),
+/// bare and nested, plus their minimal counterparts for reference
+pub fn nonminimal_terms() -> Vec<OwnedTerm> {
+    vec![
+        OwnedTerm::BigInt(BigInt::new(false, vec![1, 0])),
+        OwnedTerm::BigInt(BigInt::new(false, vec![0])),
+        OwnedTerm::BigInt(BigInt::new(true, vec![0, 0])),
+        OwnedTerm::BigInt(BigInt::new(false, vec![5, 0, 0])),
+        OwnedTerm::BigInt(BigInt::new(true, vec![1, 0])),
+        OwnedTerm::BigInt(BigInt::new(false, vec![0, 0, 0, 0, 0, 0, 0, 0, 1, 0])),
+        OwnedTerm::BigInt(BigInt::new(false, vec![1, 0, 0])),
+        OwnedTerm::Tuple(vec![OwnedTerm::BigInt(BigInt::new(false, vec![1, 0]))]),
+        OwnedTerm::List(vec![OwnedTerm::BigInt(BigInt::new(false, vec![1, 0])), int(2)]),
+        OwnedTerm::BigInt(BigInt::new(false, vec![1])),
+    ]
+}
+
 pub fn run(ctx: &mut Ctx) {
     run_mode(ctx, false)
 }
@@ -276,7 +326,24 @@ pub fn run_mode(ctx: &mut Ctx, c12: bool) {
         }
     }
     ctx.add("exhaustive", 1);
+    let nonmin = nonminimal_terms();
     if c12 {
+        // the oracle also on big integers with high-order zero digits, against every term of the universe and each other;
+        // a disagreement whose pair involves such a term is the recorded finding, anything else is an ordinary violation
+        let nm_texts: Vec<String> = nonmin.iter().map(term_text).collect();
+        for (a, ta) in nonmin.iter().zip(&nm_texts) {
+            for (b, tb) in u.iter().zip(&texts).chain(nonmin.iter().zip(&nm_texts)) {
+                // terms of different type rank are ordered by the rank alone: a disagreement there is never the recorded finding
+                let tag = if (has_nonminimal_big(a) || has_nonminimal_big(b)) && type_rank(a) == type_rank(b) {
+                    "kf-c12-nonminimal-big"
+                } else {
+                    "gen"
+                };
+                ctx.prop(tag, &format!("c12cmp {} {}", ta, tb), ord(a.cmp(b)));
+                ctx.prop(tag, &format!("c12cmp {} {}", tb, ta), ord(b.cmp(a)));
+                ctx.count("nonminimal_big_pairs");
+            }
+        }
         // slice::sort and BTreeMap iteration order against the pairwise results
         let mut sorted: Vec<usize> = (0..n).collect();
         sorted.sort_by(|&a, &b| u[a].cmp(&u[b]));
@@ -298,27 +365,20 @@ pub fn run_mode(ctx: &mut Ctx, c12: bool) {
             }
         }
     }
-    // model tie only (not part of the law checks): big integers with high-order zero digits, which the decoder
-    // accepts as they arrive; the code compares digit counts first, so these do not compare by value
-    let nonmin: Vec<OwnedTerm> = vec![
-        OwnedTerm::BigInt(BigInt::new(false, vec![1, 0])),
-        OwnedTerm::BigInt(BigInt::new(false, vec![0])),
-        OwnedTerm::BigInt(BigInt::new(true, vec![0, 0])),
-        OwnedTerm::BigInt(BigInt::new(false, vec![5, 0, 0])),
-        OwnedTerm::BigInt(BigInt::new(true, vec![1, 0])),
-        OwnedTerm::BigInt(BigInt::new(false, vec![0, 0, 0, 0, 0, 0, 0, 0, 1, 0])),
-        OwnedTerm::BigInt(BigInt::new(false, vec![1])),
-    ];
-    for a in &nonmin {
-        let ta = term_text(a);
-        for (j, b) in u.iter().enumerate().filter(|(_, b)| matches!(b, OwnedTerm::Integer(_) | OwnedTerm::BigInt(_) | OwnedTerm::Float(_))) {
-            ctx.tie("nonmin", &format!("c11cmp {} {}", ta, texts[j]), ord(a.cmp(b)));
-            ctx.tie("nonmin", &format!("c11cmp {} {}", texts[j], ta), ord(b.cmp(a)));
+    // model tie on big integers with high-order zero digits (the code compares digit counts first, so these do not
+    // compare by value), against every term of the universe and each other
+    let nm_texts: Vec<String> = nonmin.iter().map(term_text).collect();
+    for (a, ta) in nonmin.iter().zip(&nm_texts) {
+        for (b, tb) in u.iter().zip(&texts) {
+            ctx.tie("nonmin", &format!("c11cmp {} {}", ta, tb), ord(a.cmp(b)));
+            ctx.tie("nonmin", &format!("c11cmp {} {}", tb, ta), ord(b.cmp(a)));
             ctx.count("nonminimal_big_pairs");
         }
-        for b in &nonmin {
-            ctx.tie("nonmin", &format!("c11cmp {} {}", ta, term_text(b)), ord(a.cmp(b)));
+        for (b, tb) in nonmin.iter().zip(&nm_texts) {
+            ctx.tie("nonmin", &format!("c11cmp {} {}", ta, tb), ord(a.cmp(b)));
+            ctx.tie("eqv", &format!("c11eqv {} {}", ta, tb), if a == b { "true" } else { "false" });
         }
+        ctx.tie("hash", &format!("c11hash {}", ta), &crate::canon::hexarg(&hash_stream(a)));
     }
     // C11 laws on the implementation itself
     for i in 0..n {
@@ -326,7 +386,7 @@ pub fn run_mode(ctx: &mut Ctx, c12: bool) {
         for j in 0..n {
             let o = m[i * n + j];
             if m[j * n + i] != o.reverse() {
-                ctx.fail("c11-not-antisymmetric", &format!("{} {} : {} / {}", texts[i], texts[j], ord(o), ord(m[j * n + i])));
+                ctx.fail(law_class("c11-not-antisymmetric", &[&u[i], &u[j]]), &format!("{} {} : {} / {}", texts[i], texts[j], ord(o), ord(m[j * n + i])));
             }
             let bj = BorrowedTerm::from(&u[j]);
             if bi.cmp(&bj) != o {
@@ -352,7 +412,7 @@ pub fn run_mode(ctx: &mut Ctx, c12: bool) {
             }
             for k in 0..n {
                 if m[j * n + k] != Ordering::Greater && m[i * n + k] == Ordering::Greater {
-                    ctx.fail("c11-not-transitive", &format!("{} <= {} <= {} but first > third", texts[i], texts[j], texts[k]));
+                    ctx.fail(law_class("c11-not-transitive", &[&u[i], &u[j], &u[k]]), &format!("{} <= {} <= {} but first > third", texts[i], texts[j], texts[k]));
                     bad += 1;
                     if bad > 5 {
                         break 'outer;
@@ -360,7 +420,7 @@ pub fn run_mode(ctx: &mut Ctx, c12: bool) {
                 }
                 // equality must be a congruence for the order
                 if m[i * n + j] == Ordering::Equal && m[i * n + k] != m[j * n + k] {
-                    ctx.fail("c11-not-transitive", &format!("{} = {} but they compare differently with {}", texts[i], texts[j], texts[k]));
+                    ctx.fail(law_class("c11-not-transitive", &[&u[i], &u[j], &u[k]]), &format!("{} = {} but they compare differently with {}", texts[i], texts[j], texts[k]));
                     bad += 1;
                     if bad > 5 {
                         break 'outer;
@@ -370,6 +430,74 @@ pub fn run_mode(ctx: &mut Ctx, c12: bool) {
         }
     }
     ctx.add("triples", (n * n * n) as u64);
+    // the same laws on the universe extended by the non-minimal big integers: every pair and every triple that contains at
+    // least one of them. A violation is classified by inspecting its witness: the recorded finding only if a non-minimal big
+    // integer takes part, otherwise the ordinary class.
+    {
+        let x: Vec<&OwnedTerm> = u.iter().chain(nonmin.iter()).collect();
+        let xt: Vec<&String> = texts.iter().chain(nm_texts.iter()).collect();
+        let nx = x.len();
+        let mut mx = vec![Ordering::Equal; nx * nx];
+        for i in 0..nx {
+            for j in 0..nx {
+                mx[i * nx + j] = if i < n && j < n { m[i * n + j] } else { x[i].cmp(x[j]) };
+            }
+        }
+        let (mut kf, mut plain) = (0usize, 0usize);
+        let mut report = |ctx: &mut Ctx, base: &'static str, w: &[&OwnedTerm], text: String| {
+            let class = law_class(base, w);
+            let seen = if class == base { &mut plain } else { &mut kf };
+            *seen += 1;
+            if *seen <= 8 {
+                ctx.fail(class, &text);
+            }
+        };
+        for i in 0..nx {
+            for j in 0..nx {
+                if i < n && j < n {
+                    continue;
+                }
+                let o = mx[i * nx + j];
+                if mx[j * nx + i] != o.reverse() {
+                    report(ctx, "c11-not-antisymmetric", &[x[i], x[j]], format!("{} {} : {} / {}", xt[i], xt[j], ord(o), ord(mx[j * nx + i])));
+                }
+                let (bi, bj) = (BorrowedTerm::from(x[i]), BorrowedTerm::from(x[j]));
+                if bi.cmp(&bj) != o {
+                    ctx.fail("c11-borrowed-differs", &format!("{} {} : owned {} borrowed {}", xt[i], xt[j], ord(o), ord(bi.cmp(&bj))));
+                }
+                if x[i] == x[j] {
+                    if o != Ordering::Equal {
+                        ctx.fail("c11-eq-not-cmp-equal", &format!("{} {}", xt[i], xt[j]));
+                    }
+                    if h(x[i]) != h(x[j]) {
+                        ctx.fail("c11-eq-hash-differs", &format!("{} {}", xt[i], xt[j]));
+                    }
+                }
+            }
+        }
+        let mut triples = 0u64;
+        for i in 0..nx {
+            for j in 0..nx {
+                if mx[i * nx + j] == Ordering::Greater {
+                    continue;
+                }
+                for k in 0..nx {
+                    if i < n && j < n && k < n {
+                        continue;
+                    }
+                    triples += 1;
+                    if mx[j * nx + k] != Ordering::Greater && mx[i * nx + k] == Ordering::Greater {
+                        report(ctx, "c11-not-transitive", &[x[i], x[j], x[k]], format!("{} <= {} <= {} but first > third", xt[i], xt[j], xt[k]));
+                    }
+                    if mx[i * nx + j] == Ordering::Equal && mx[i * nx + k] != mx[j * nx + k] {
+                        report(ctx, "c11-not-transitive", &[x[i], x[j], x[k]], format!("{} = {} but they compare differently with {}", xt[i], xt[j], xt[k]));
+                    }
+                }
+            }
+        }
+        ctx.add("triples_with_nonminimal_big", triples);
+        ctx.add("nonminimal_big_law_violations", kf as u64);
+    }
     // ordered and hashed containers neither lose nor duplicate
     let mut bt: BTreeMap<OwnedTerm, usize> = BTreeMap::new();
     let mut hm: HashMap<OwnedTerm, usize> = HashMap::new();
